@@ -4,6 +4,7 @@ import (
 	"bytes"
 	"compress/flate"
 	"context"
+	"crypto"
 	"crypto/sha256"
 	"encoding/base64"
 	"encoding/xml"
@@ -97,6 +98,10 @@ type c09Step struct {
 	MB      int      `json:"mb,omitempty"` // bomb size (inflated)
 	// resolve: the artifact the browser presents: 0 = a fixed sample; n>0 = a well-formed type-0x0004 artifact (44 bytes) with EndpointIndex n-1
 	ArtIdx int `json:"artifact_endpoint_index_plus1,omitempty"`
+	// response family: the key the service provider holds ("" = the RSA key rsa1; see c09SPKeys) and the certificate the foreign IdP
+	// encrypts the assertion to ("" = rsa1's, the one this SP published while rsa1 was its key; "rsa4" = that of another RSA key)
+	SPKey string `json:"sp_key,omitempty"`
+	EncTo string `json:"encrypted_to,omitempty"`
 }
 
 // c09Artifact renders the SAMLart value for a resolve step.
@@ -398,8 +403,50 @@ func c09IdpMetadata() *saml.EntityDescriptor {
 	return md
 }
 
+// c09SPKey: which key the service provider holds while a response step runs (ServiceProvider.Key is a crypto.Signer: "RSA or ECDSA", or
+// anything else that signs).
+var c09SPKey string
+
+// c09SPKeys are the keys a service provider may hold: "" the RSA key the foreign IdP knows it by; an ECDSA key (the SP rolled its key
+// over; it decrypts nothing); another RSA key; the first RSA key kept where only signatures can be asked of it (an HSM, a KMS).
+var c09SPKeys = []string{"ec0", "rsa4", "rsa1-signer-only"}
+
+// c09SignerOnly hides a private key behind crypto.Signer.
+type c09SignerOnly struct{ k crypto.Signer }
+
+func (o c09SignerOnly) Public() crypto.PublicKey { return o.k.Public() }
+func (o c09SignerOnly) Sign(r io.Reader, digest []byte, opts crypto.SignerOpts) ([]byte, error) {
+	return o.k.Sign(r, digest, opts)
+}
+
+func c09SPKeyPair(name string) KeyPair {
+	switch name {
+	case "":
+		return rsaKeys[1]
+	case "ec0":
+		return ecKeys[0]
+	case "rsa4":
+		return rsaKeys[4]
+	case "rsa1-signer-only":
+		return KeyPair{Name: name, Key: c09SignerOnly{rsaKeys[1].Key}, Cert: rsaKeys[1].Cert}
+	}
+	panic("harness: unknown service provider key " + name)
+}
+
+// c09Readable is the reference model of decryption: the service provider can read an assertion encrypted to a certificate exactly when
+// it holds that certificate's RSA private key (as a key, not as something that only signs).
+func c09Readable(spKey, encTo string) bool {
+	if encTo == "" {
+		encTo = "rsa1"
+	}
+	if spKey == "" {
+		spKey = "rsa1"
+	}
+	return spKey == encTo
+}
+
 func c09NewSP() *saml.ServiceProvider {
-	s := newSP(c09SpBase, rsaKeys[1], "", c09IdpMetadata())
+	s := newSP(c09SpBase, c09SPKeyPair(c09SPKey), "", c09IdpMetadata())
 	switch c09CertMode {
 	case "fingerprint":
 		// trust by certificate fingerprint: the certificate is taken from the message's KeyInfo before anything is verified
@@ -579,6 +626,7 @@ type c09RespOpts struct {
 	PlainBytes func(assertion []byte) (plain []byte)  // replace the plaintext that gets encrypted
 	EncCipher  xmlenc.BlockCipher                     // content-encryption algorithm (nil: AES128-CBC)
 	EncKT      int                                    // key transport: 0 OAEP/SHA-1, 1 OAEP/SHA-256, 2 OAEP/SHA-512, 3 OAEP/RIPEMD-160, 4 RSA-1_5, 5 OAEP with the DigestMethod element removed
+	EncTo      string                                 // whose certificate the assertion is encrypted to ("": rsa1's)
 }
 
 // c09BuildResponse renders a genuine Response of the foreign IdP at moment t0, with the
@@ -609,7 +657,7 @@ func c09BuildResponse(o c09RespOpts, t0 time.Time) *etree.Element {
 		if o.PlainBytes != nil {
 			plain = o.PlainBytes(plain)
 		}
-		asEl = c09EncryptBytesWith(plain, rsaKeys[1], o.EncCipher, o.EncKT)
+		asEl = c09EncryptBytesWith(plain, c09SPKeyPair(o.EncTo), o.EncCipher, o.EncKT)
 		if o.MutEnc != nil {
 			asEl = o.MutEnc(asEl)
 		}
@@ -1904,12 +1952,14 @@ func c09ExecResponse(c *c09Ctx, st *c09Step, k c09Knobs) {
 		c09CertMode = c09TrustModes[st.Variant%len(c09TrustModes)]
 		defer func() { c09CertMode = "" }()
 	}
+	c09SPKey = st.SPKey
+	defer func() { c09SPKey = "" }()
 	spv := c09NewSP()
 	encrypt := st.Encrypt
 	if st.Kind == "corrupt" && (c09ByteOp(st.Op) || strings.HasPrefix(st.Op, "b64-")) {
 		encrypt = false // ciphertext bytes differ between executions (OAEP): byte positions would not replay
 	}
-	o := c09RespOpts{Layout: st.Layout, Encrypt: encrypt, MutResp: c09Mut(st)}
+	o := c09RespOpts{Layout: st.Layout, Encrypt: encrypt, MutResp: c09Mut(st), EncTo: st.EncTo}
 	if st.Kind == "omit" {
 		o.Omit = st.Omit
 	}
@@ -1946,6 +1996,28 @@ func c09ExecResponse(c *c09Ctx, st *c09Step, k c09Knobs) {
 	expect := "ANY"
 	if st.Kind == "good" {
 		expect = "ACCEPT"
+	}
+	if st.SPKey != "" || st.EncTo != "" {
+		// which key the service provider holds has no bearing on whose signatures it trusts; what it can read has: a response whose
+		// only assertion is encrypted to a key the SP does not hold (any more) carries nothing for it, and is one more input that has
+		// to come back as an error
+		readable := c09Readable(st.SPKey, st.EncTo)
+		if o.Encrypt && !readable && (st.Kind == "good" || st.Kind == "omit") {
+			expect = "REJECT"
+		}
+		kind := "plaintext"
+		if o.Encrypt {
+			kind = "encrypted-to-" + map[bool]string{true: "the-key-it-holds", false: "a-key-it-does-not-hold"}[readable]
+		}
+		c.res.Extra["sp-key:"+map[bool]string{true: st.SPKey, false: "rsa1"}[st.SPKey != ""]+":"+kind]++
+		if o.Encrypt && !readable {
+			c.res.Nontrivial = true
+			c.res.probe("encrypted-assertion-for-a-key-the-sp-does-not-hold")
+			shape += "+unreadable"
+		}
+		if st.SPKey != "" {
+			shape += "+sp-key-" + st.SPKey
+		}
 	}
 	ids := []string{c09ReqID}
 	var as *saml.Assertion
@@ -2547,6 +2619,12 @@ func genTotality(g *Rng, tier string) *Plan {
 				st.N = g.Intn(16)
 			}
 		}
+		if st.Family == "response" && st.Kind != "bomb" && g.Bool(0.3) {
+			// the service provider holds another key than the one the foreign IdP knows it by (it rolled its key over, to ECDSA or to
+			// another RSA key, or moved it into a device that only signs), and/or the IdP encrypts to another certificate
+			st.SPKey = Pick(g, append([]string{""}, c09SPKeys...)...)
+			st.EncTo = Pick(g, "", "", "rsa4")
+		}
 		p.Steps = append(p.Steps, mustJSON(st))
 	}
 	return p
@@ -2720,7 +2798,7 @@ func simplifyTotality(p *Plan) []*Plan {
 			for _, o := range c09OmitPool(st.Family) {
 				o := o
 				with(i, func(s *c09Step) {
-					*s = c09Step{Kind: "omit", Entry: s.Entry, Family: s.Family, Layout: s.Layout, Encrypt: s.Encrypt, Omit: []string{o}}
+					*s = c09Step{Kind: "omit", Entry: s.Entry, Family: s.Family, Layout: s.Layout, Encrypt: s.Encrypt, Omit: []string{o}, SPKey: s.SPKey, EncTo: s.EncTo}
 				})
 			}
 		}
@@ -2735,6 +2813,15 @@ func simplifyTotality(p *Plan) []*Plan {
 		}
 		if st.Layout != "R" && st.Layout != "" {
 			with(i, func(s *c09Step) { s.Layout = "R" })
+		}
+		if st.SPKey != "" && st.EncTo != "" {
+			with(i, func(s *c09Step) { s.SPKey, s.EncTo = "", "" })
+		}
+		if st.SPKey != "" {
+			with(i, func(s *c09Step) { s.SPKey = "" })
+		}
+		if st.EncTo != "" {
+			with(i, func(s *c09Step) { s.EncTo = "" })
 		}
 		if st.Variant != 0 {
 			with(i, func(s *c09Step) { s.Variant = 0 })
@@ -2787,7 +2874,7 @@ func simplifyTotality(p *Plan) []*Plan {
 func init() {
 	register(&Profile{
 		ID: "C09", Name: "totality", Level: "fault_enumeration",
-		Rule: "a run is either (1) a back-channel fault sequence: 1-4 artifact resolutions (ParseResponse with SAMLart) / FetchMetadata calls through a SimTransport, each with one fault kind of the enumeration {conn_err, status 401/404/500/503/302(+Location), empty, truncated(err|clean)@permille, slow(chunks x delay), stall headers|body until the client/context deadline, garbage, SOAP fault, 10 wrong envelopes, wrong InResponseTo(other|absent|previous), bad status, unsigned, wrong key, good} - every kind x position is covered and counted in extra[cov:...]; or (2) 1-3 in-flight inputs: a foreign IdP omits a sampled subset of optional elements/attributes and re-signs (Response, Assertion plaintext/encrypted in R/A/RA signing layouts, LogoutResponse, AuthnRequest, registered SP metadata, metadata documents), or the network corrupts a genuine message (truncate, bit flips, base64 cut/pad/bad char, deflate-layer damage, rootless documents, depth-10k nesting, MB-sized attribute, CipherValue of 0-4 blocks(+1), foreign plaintext under valid encryption), or a 12-300 MB deflate bomb, on every consuming entry point of SP, IdP, bundled server and metadata parser. Part (1) is enumerated, part (2) is sampled. non-trivial = the run contains at least one input that is not the genuine message / at least one injected back-channel fault; distinct = distinct abstract event log (entry, shape, parameters, expectation, outcome class); back-channel faults include a body whose Close fails, an endless chain of 307 redirects to fresh URLs (more than 200 back-channel requests in one call is a hang) and a body shorter or longer than its announced length; 30% of artifact deliveries present a well-formed type-4 artifact with endpoint index 0,1,2,3 or 65535; encrypted assertions use every content-encryption algorithm the library registers a decrypter for (aes128/192/256-cbc, tripledes-cbc, aes128-gcm) and six key-transport variants, with cipher values of 19 lengths; root-element attributes whose text is parsed (URLs, instants, numbers) take 30 hostile texts before signing; KeyInfo is dropped from signatures while the SP's IdP metadata lists one certificate, two, or one beside an entry that is no certificate; metadata carries 17 further xsd:duration / xsd:dateTime lexical forms (64+ fraction digits, huge years, empty, year 0); the certificate text inside a signature's KeyInfo takes 14 shapes (PEM armour opened/closed/reversed, empty, garbage, truncated, 100 kB) under fingerprint, pinned and metadata trust; EncryptedData carries a RetrievalMethod with 13 URI shapes, the EncryptedKey beside it; metadata carries AffiliationDescriptor, the other role descriptors, Organization, ContactPerson, Extensions; a worker process that dies inside a run (stack overflow, out of memory: not a panic) leaves the plan behind, the driver re-executes it alone and reports class fatal if the process dies again",
+		Rule: "a run is either (1) a back-channel fault sequence: 1-4 artifact resolutions (ParseResponse with SAMLart) / FetchMetadata calls through a SimTransport, each with one fault kind of the enumeration {conn_err, status 401/404/500/503/302(+Location), empty, truncated(err|clean)@permille, slow(chunks x delay), stall headers|body until the client/context deadline, garbage, SOAP fault, 10 wrong envelopes, wrong InResponseTo(other|absent|previous), bad status, unsigned, wrong key, good} - every kind x position is covered and counted in extra[cov:...]; or (2) 1-3 in-flight inputs: a foreign IdP omits a sampled subset of optional elements/attributes and re-signs (Response, Assertion plaintext/encrypted in R/A/RA signing layouts, LogoutResponse, AuthnRequest, registered SP metadata, metadata documents), or the network corrupts a genuine message (truncate, bit flips, base64 cut/pad/bad char, deflate-layer damage, rootless documents, depth-10k nesting, MB-sized attribute, CipherValue of 0-4 blocks(+1), foreign plaintext under valid encryption), or a 12-300 MB deflate bomb, on every consuming entry point of SP, IdP, bundled server and metadata parser. Part (1) is enumerated, part (2) is sampled. non-trivial = the run contains at least one input that is not the genuine message / at least one injected back-channel fault; distinct = distinct abstract event log (entry, shape, parameters, expectation, outcome class); back-channel faults include a body whose Close fails, an endless chain of 307 redirects to fresh URLs (more than 200 back-channel requests in one call is a hang) and a body shorter or longer than its announced length; 30% of artifact deliveries present a well-formed type-4 artifact with endpoint index 0,1,2,3 or 65535; encrypted assertions use every content-encryption algorithm the library registers a decrypter for (aes128/192/256-cbc, tripledes-cbc, aes128-gcm) and six key-transport variants, with cipher values of 19 lengths; root-element attributes whose text is parsed (URLs, instants, numbers) take 30 hostile texts before signing; KeyInfo is dropped from signatures while the SP's IdP metadata lists one certificate, two, or one beside an entry that is no certificate; metadata carries 17 further xsd:duration / xsd:dateTime lexical forms (64+ fraction digits, huge years, empty, year 0); the certificate text inside a signature's KeyInfo takes 14 shapes (PEM armour opened/closed/reversed, empty, garbage, truncated, 100 kB) under fingerprint, pinned and metadata trust; EncryptedData carries a RetrievalMethod with 13 URI shapes, the EncryptedKey beside it; metadata carries AffiliationDescriptor, the other role descriptors, Organization, ContactPerson, Extensions; a worker process that dies inside a run (stack overflow, out of memory: not a panic) leaves the plan behind, the driver re-executes it alone and reports class fatal if the process dies again; in 30% of the response inputs the service provider holds another key than the RSA key the IdP knows it by (an ECDSA key, another RSA key, the same RSA key behind a crypto.Signer that only signs) and/or the assertion is encrypted to the certificate of another RSA key: signatures are judged as before, and a response whose only assertion is encrypted to a key the SP does not hold must come back as an error",
 		Gen:  genTotality, Exec: execTotality, Simplify: simplifyTotality,
 		RunsQuick: 3000, RunsThorough: 300000,
 		Assumptions: []string{
